@@ -254,6 +254,11 @@ func genPowPair(t *rapid.T) (D, D) {
 		if ir(t, 0, 4, "half") == 0 {
 			return x, genCohortMember(t, DFin(genSign(t), bi(5), -1))
 		}
+		if ir(t, 0, 7, "hugeY") == 0 {
+			// integer exponents of two words (the shortcut's range test has to look at both), possibly written
+			// with trailing zeros
+			return x, DFin(genSign(t), genWordStructured(t), ir(t, 0, 2, "ytz"))
+		}
 		var yv int
 		if k != 0 && ir(t, 0, 1, "edge") == 0 {
 			target := genNear(t, 40, 6111, 6144, 6145, -6176, -6177, 6176, 0)
